@@ -72,18 +72,21 @@ theorem downsample_chunk_invariant (divFs : ρ → Nat → ρ) (twoD : Bool) (q 
   have := downsample_run divFs twoD q hq ann cs [] s s {} (Or.inl ⟨rfl, rfl⟩) hq (Or.inr ⟨rfl, rfl, rfl⟩)
   simpa using this
 
-/-- `decimate(q)` (as repaired): filter the whole signal, keep every `q`-th sample -/
-theorem decimate_chunk_invariant (m : Mealy α β S) (zi : S) (divFs : ρ → Nat → ρ) (q : Nat) (hq : 0 < q)
+/-- `decimate(q)` (as repaired): filter the whole signal, keep every `q`-th sample.  `lf` is SciPy's
+`lfilter`: the state machine `m` on non-empty input, an **arbitrary** final state on empty input
+(`LfilterIs`); empty chunks anywhere in the stream are covered. -/
+theorem decimate_chunk_invariant (m : Mealy α β S) (lf : S → List α → List β × S) (hlf : LfilterIs lf m)
+    (zi : S) (divFs : ρ → Nat → ρ) (q : Nat) (hq : 0 < q)
     (ann : Ann ρ χ μ) (s : Int) (cs : List (List α)) :
-    ∃ bs, outputs (runStage (decimateStep m zi divFs q) none (stream ann s cs)) = .ok bs
+    ∃ bs, outputs (runStage (decimateStep lf zi divFs q) none (stream ann s cs)) = .ok bs
       ∧ Emits bs (stride q ((m.run zi cs.flatten).1.take (cs.flatten.length / q * q))) 1 s
           { ann with fs := divFs ann.fs q } := by
   cases cs with
   | nil => exact ⟨[], rfl, by simpa [Mealy.run, stride, strideAux] using Emits.nil _ _ _⟩
   | cons c cs =>
-    have := decimate_run m zi divFs q hq ann (c :: cs) [] s s zi none (Or.inl ⟨rfl, rfl⟩) hq
-    have e : runStage (decimateStep m zi divFs q) none (stream ann s (c :: cs))
-        = runStage (decimateStep m zi divFs q) (some { zf := zi, rem := none, s0 := s }) (stream ann s (c :: cs)) := by
+    have := decimate_run m lf hlf zi divFs q hq ann (c :: cs) [] s s zi none (Or.inl ⟨rfl, rfl⟩) hq
+    have e : runStage (decimateStep lf zi divFs q) none (stream ann s (c :: cs))
+        = runStage (decimateStep lf zi divFs q) (some { zf := zi, rem := none, s0 := s }) (stream ann s (c :: cs)) := by
       rw [stream_cons]; rfl
     rw [e]
     simpa using this
@@ -124,23 +127,69 @@ theorem derivative_chunk_invariant (init : α) (d : α → α → β) (ann : Ann
       rw [stream_cons]; rfl
     rw [e]; exact this
 
-/-- `iirfilter`: the Mealy machine (lfilter) started in the state scaled by the very first sample,
-run over the whole signal; annotations (incl. channel and metadata, as repaired) kept -/
-theorem iirfilter_chunk_invariant (m : Mealy α β S) (init : α → S) (ann : Ann ρ χ μ) (s : Int)
+/-- `iirfilter`: the state machine `m` (what `lfilter` computes on non-empty input, `LfilterIs`) started in
+the state scaled by the very first sample, run over the whole signal; annotations (incl. channel and
+metadata, as repaired) kept.  Empty chunks after the first are covered although `lfilter` returns an
+arbitrary state for them. -/
+theorem iirfilter_chunk_invariant (m : Mealy α β S) (lf : S → List α → List β × S) (hlf : LfilterIs lf m)
+    (init : α → S) (ann : Ann ρ χ μ) (s : Int)
     (x0 : α) (c0 : List α) (cs : List (List α)) :
-    ∃ bs, outputs (runStage (iirStep m init) none (stream ann s ((x0 :: c0) :: cs))) = .ok bs
+    ∃ bs, outputs (runStage (iirStep lf init) none (stream ann s ((x0 :: c0) :: cs))) = .ok bs
       ∧ Emits bs (m.run (init x0) ((x0 :: c0) :: cs).flatten).1 1 s ann := by
-  have := iir_run m init ann ((x0 :: c0) :: cs) (init x0) s
-  have e : runStage (iirStep m init) none (stream ann s ((x0 :: c0) :: cs))
-      = runStage (iirStep m init) (some (init x0)) (stream ann s ((x0 :: c0) :: cs)) := by
+  have := iir_run m lf hlf init ann ((x0 :: c0) :: cs) (init x0) s
+  have e : runStage (iirStep lf init) none (stream ann s ((x0 :: c0) :: cs))
+      = runStage (iirStep lf init) (some (init x0)) (stream ann s ((x0 :: c0) :: cs)) := by
     rw [stream_cons]; rfl
   rw [e]; exact this
 
 /-- domain note: an empty first chunk cannot initialise the filter state (`ValueError`) -/
-theorem iirfilter_empty_first_chunk (m : Mealy α β S) (init : α → S) (ann : Ann ρ χ μ) (s : Int)
+theorem iirfilter_empty_first_chunk (lf : S → List α → List β × S) (init : α → S) (ann : Ann ρ χ μ) (s : Int)
     (cs : List (List α)) :
-    outputs (runStage (iirStep m init) none (stream ann s ([] :: cs))) = .error .valueError := by
+    outputs (runStage (iirStep lf init) none (stream ann s ([] :: cs))) = .error .valueError := by
   rw [stream_cons]; rfl
+
+/-- the empty-chunk case spelled out: a zero-length chunk inserted anywhere (after a non-empty first chunk
+for `iirfilter`, anywhere for `decimate`) changes neither the concatenated output nor the first `s0` nor
+the annotations, whatever final state `lfilter` reports for the empty input -/
+theorem lfilter_stages_empty_chunk_invariant (m : Mealy α β S) (lf : S → List α → List β × S)
+    (hlf : LfilterIs lf m) (init : α → S) (zi : S) (divFs : ρ → Nat → ρ) (q : Nat) (hq : 0 < q)
+    (ann : Ann ρ χ μ) (s : Int) (x0 : α) (c0 : List α) (pre post : List (List α)) :
+    (∃ bs bs' x, outputs (runStage (iirStep lf init) none (stream ann s ((x0 :: c0) :: pre ++ [] :: post))) = .ok bs
+      ∧ outputs (runStage (iirStep lf init) none (stream ann s ((x0 :: c0) :: pre ++ post))) = .ok bs'
+      ∧ Emits bs x 1 s ann ∧ Emits bs' x 1 s ann)
+    ∧ (∃ bs bs' x, outputs (runStage (decimateStep lf zi divFs q) none (stream ann s (pre ++ [] :: post))) = .ok bs
+      ∧ outputs (runStage (decimateStep lf zi divFs q) none (stream ann s (pre ++ post))) = .ok bs'
+      ∧ Emits bs x 1 s { ann with fs := divFs ann.fs q }
+      ∧ Emits bs' x 1 s { ann with fs := divFs ann.fs q }) := by
+  constructor
+  · obtain ⟨bs, h1, h2⟩ := iirfilter_chunk_invariant m lf hlf init ann s x0 c0 (pre ++ [] :: post)
+    obtain ⟨bs', h1', h2'⟩ := iirfilter_chunk_invariant m lf hlf init ann s x0 c0 (pre ++ post)
+    refine ⟨bs, bs', _, h1, h1', h2, ?_⟩
+    simpa using h2'
+  · obtain ⟨bs, h1, h2⟩ := decimate_chunk_invariant m lf hlf zi divFs q hq ann s (pre ++ [] :: post)
+    obtain ⟨bs', h1', h2'⟩ := decimate_chunk_invariant m lf hlf zi divFs q hq ann s (pre ++ post)
+    refine ⟨bs, bs', _, h1, h1', h2, ?_⟩
+    simpa using h2'
+
+/-- why the guard is needed (the recorded finding `C12-lfilter-empty-chunk`, repaired by
+notes/C12_fix_5.diff): a stage that adopts the final state `lfilter` reports for an empty chunk is not
+chunk-invariant for a kernel that is correct on every non-empty input.  Kernel: running sum, state 99 after
+an empty input. -/
+theorem lfilter_unguarded_not_chunk_invariant :
+    ∃ (m : Mealy Nat Nat Nat) (lf : Nat → List Nat → List Nat × Nat), LfilterIs lf m ∧
+      let unguarded : Option Nat → PD Nat Unit Unit Unit → Except Err (List (PD Nat Unit Unit Unit) × Option Nat) :=
+        fun st y => match iirInit (fun _ => 0) st y.data with
+          | .error e => .error e
+          | .ok z => .ok ([y.withData (lf z y.data).1], some (lf z y.data).2)
+      (outputs (runStage unguarded none (stream ⟨(), (), ()⟩ 0 [[1], [], [2]]))).toOption.map outData
+        ≠ (outputs (runStage unguarded none (stream ⟨(), (), ()⟩ 0 [[1], [2]]))).toOption.map outData
+      ∧ (outputs (runStage (iirStep lf (fun _ => 0)) none (stream ⟨(), (), ()⟩ 0 [[1], [], [2]]))).toOption.map outData
+        = (outputs (runStage (iirStep lf (fun _ => 0)) none (stream ⟨(), (), ()⟩ 0 [[1], [2]]))).toOption.map outData := by
+  refine ⟨⟨fun s a => (s + a, s + a)⟩, fun z x => if x = [] then ([], 99) else
+    (⟨fun s a => (s + a, s + a)⟩ : Mealy Nat Nat Nat).run z x, ⟨?_, ?_⟩, ?_⟩
+  · intro z x hx; simp [hx]
+  · intro z; simp
+  · decide
 
 /-- `transform(f)` with a pointwise `f`: `f` applied to every sample of the whole signal -/
 theorem transform_pointwise_chunk_invariant (g : α → β) (ann : Ann ρ χ μ) (s : Int) (cs : List (List α)) :
@@ -314,7 +363,7 @@ example : outputs (runStage (downsampleStep (fun (r : Nat) q => r / q) false 3) 
     = .ok [⟨[0], 6, ⟨300, (), ()⟩⟩, ⟨[3], 7, ⟨300, (), ()⟩⟩] := by rfl
 
 /-- running sum as a stand-in for `lfilter`: q = 3, chunks 5 + 5 (the recon counterexample of the unrepaired code) -/
-example : outputs (runStage (decimateStep (⟨fun s a => (s + a, s + a)⟩ : Mealy Nat Nat Nat) 0 (fun (r : Nat) q => r / q) 3) none
+example : outputs (runStage (decimateStep (⟨fun s a => (s + a, s + a)⟩ : Mealy Nat Nat Nat).run 0 (fun (r : Nat) q => r / q) 3) none
       (stream (⟨900, (), ()⟩ : Ann Nat Unit Unit) 0 [[1, 1, 1, 1, 1], [1, 1, 1, 1, 1]]))
     = .ok [⟨[1], 0, ⟨300, (), ()⟩⟩, ⟨[4, 7], 1, ⟨300, (), ()⟩⟩] := by rfl
 
@@ -329,9 +378,25 @@ example : outputs (runStage (derivativeStep 0 (fun (p c : Int) => c - p)) none
       (stream (⟨(), (), ()⟩ : Ann Unit Unit Unit) 5 [[1, 4], [], [9]]))
     = .ok [⟨[1, 3], 5, ⟨(), (), ()⟩⟩, ⟨[], 7, ⟨(), (), ()⟩⟩, ⟨[5], 7, ⟨(), (), ()⟩⟩] := by rfl
 
-example : outputs (runStage (iirStep (⟨fun s a => (s + a, s + a)⟩ : Mealy Nat Nat Nat) (fun x0 => 10 * x0)) none
+example : outputs (runStage (iirStep (⟨fun s a => (s + a, s + a)⟩ : Mealy Nat Nat Nat).run (fun x0 => 10 * x0)) none
       (stream (⟨(), (), ()⟩ : Ann Unit Unit Unit) 0 [[1, 2], [3]]))
     = .ok [⟨[11, 13], 0, ⟨(), (), ()⟩⟩, ⟨[16], 2, ⟨(), (), ()⟩⟩] := by rfl
+
+/-- a kernel like SciPy's: running sum on non-empty input, final state 99 ("garbage") on empty input;
+with the guard an empty chunk in the middle is harmless (iirfilter, and decimate q = 2) -/
+example : LfilterIs (fun (z : Nat) (x : List Nat) => if x = [] then ([], 99) else
+    (⟨fun s a => (s + a, s + a)⟩ : Mealy Nat Nat Nat).run z x) ⟨fun s a => (s + a, s + a)⟩ :=
+  ⟨fun z x hx => by simp [hx], fun z => by simp⟩
+
+example : outputs (runStage (iirStep (fun (z : Nat) (x : List Nat) => if x = [] then ([], 99) else
+      (⟨fun s a => (s + a, s + a)⟩ : Mealy Nat Nat Nat).run z x) (fun x0 => 10 * x0)) none
+      (stream (⟨(), (), ()⟩ : Ann Unit Unit Unit) 0 [[1, 2], [], [3]]))
+    = .ok [⟨[11, 13], 0, ⟨(), (), ()⟩⟩, ⟨[], 2, ⟨(), (), ()⟩⟩, ⟨[16], 2, ⟨(), (), ()⟩⟩] := by rfl
+
+example : outputs (runStage (decimateStep (fun (z : Nat) (x : List Nat) => if x = [] then ([], 99) else
+      (⟨fun s a => (s + a, s + a)⟩ : Mealy Nat Nat Nat).run z x) 0 (fun (r : Nat) q => r / q) 2) none
+      (stream (⟨900, (), ()⟩ : Ann Nat Unit Unit) 0 [[], [1, 1, 1], [], [1]]))
+    = .ok [⟨[1], 0, ⟨450, (), ()⟩⟩, ⟨[3], 1, ⟨450, (), ()⟩⟩] := by rfl
 
 example : outputs (runStage (autoThStep (fun l => l.sum) (fun th (x : Nat) => decide (th ≤ x)) (fun th m => th :: m) 3) .first
       (stream (⟨(), (), ([] : List Nat)⟩ : Ann Unit Unit (List Nat)) 0 [[1, 2], [0, 9], [4]]))
